@@ -2777,6 +2777,50 @@ def _pattern_of(fa, e, nid):
     return None, None
 
 
+def _format_fields(fa, e):
+    """[('lit', text) | ('expr', node)] of `<template>.format(...)` whose template is a constant (also a module-level one) and whose
+    fields may reach into their argument (`{cls.__module__}`, `{0.__qualname__}`); None for anything else."""
+    import string
+    if not (isinstance(e, ast.Call) and isinstance(e.func, ast.Attribute) and e.func.attr == "format"):
+        return None
+    t = e.func.value
+    if isinstance(t, ast.Name) and not fa.df.is_local(t.id):
+        t = fa.fi.module.assigns.get(t.id)
+    fmt = A.const_str(t) if t is not None else None
+    if fmt is None or any(isinstance(a, ast.Starred) for a in e.args) or any(k.arg is None for k in e.keywords):
+        return None
+    out, auto = [], 0
+    try:
+        pieces = list(string.Formatter().parse(fmt))
+    except ValueError:
+        return None
+    for (lit, field, spec, conv) in pieces:
+        if lit:
+            out.append(("lit", lit))
+        if field is None:
+            continue
+        if spec or conv not in (None, "s"):
+            return None
+        head = field.split(".")[0].split("[")[0]
+        rest = field[len(head):]
+        if head == "":
+            idx, auto = auto, auto + 1
+            base = e.args[idx] if idx < len(e.args) else None
+        elif head.isdigit():
+            base = e.args[int(head)] if int(head) < len(e.args) else None
+        else:
+            base = next((k.value for k in e.keywords if k.arg == head), None)
+        if base is None or "[" in rest:
+            return None
+        x = copy.deepcopy(base)
+        for attr in [a for a in rest.split(".") if a]:
+            if not attr.isidentifier():
+                return None
+            x = ast.Attribute(value=x, attr=attr, ctx=ast.Load())
+        out.append(("expr", x))
+    return out
+
+
 def check_exception_name_roundtrip(ck, R):
     ck.rule(R, "the exception name from_exception writes (language::module:qualified class name) is read back whole by to_exception: every "
                "character a written field can contain is accepted by the group of the reader's pattern that takes that field out", 2)
@@ -2787,6 +2831,8 @@ def check_exception_name_roundtrip(ck, R):
     ck.need(a_name is not None, "from_exception: no exception name is passed")
     tmpl, tat = follow_value(fe, a_name, (fe.nodes(mk) or [None])[0])
     parts = A.str_parts(tmpl)
+    if parts is None:
+        parts = _format_fields(fe, tmpl)
     ck.need(parts is not None, "from_exception: the exception name is not built from a template")
     fields = [(v, tat) for (k, v) in parts if k == "expr"]
     ck.need(fields, "from_exception: the exception name has no computed field")
@@ -2877,35 +2923,80 @@ def check_exception_name_roundtrip(ck, R):
             """the groups whose text flows into one of these expressions (a group is designated by its number / name)"""
             out = set()
 
-            def all_groups(v, at_, depth=0):
-                """`m.groups()`, or a local that stands for it (and otherwise for nothing: None)"""
+            def group_list(v, at_, depth=0):
+                """the groups a sequence-valued expression holds, in order: `m.groups()`, `m.group(2, 3)`, a display of single
+                groups, a conditional that otherwise gives Nones, or a local that stands for one of those; else None"""
                 if isinstance(v, ast.Call) and A.call_attr(v) == "groups" and not v.args:
-                    return True
+                    return list(range(1, ngroups + 1))
+                if isinstance(v, ast.Call) and A.call_attr(v) == "group" and len(v.args) >= 2:
+                    out_ = []
+                    for g_ in v.args:
+                        if isinstance(g_, ast.Constant) and isinstance(g_.value, int) and not isinstance(g_.value, bool):
+                            out_.append(g_.value)
+                        elif A.const_str(g_) in names:
+                            out_.append(names[A.const_str(g_)])
+                        else:
+                            return None
+                    return out_
+                if isinstance(v, (ast.Tuple, ast.List)):
+                    if all(A.is_none(x_) for x_ in v.elts):
+                        return []
+                    out_ = []
+                    for x_ in v.elts:
+                        g_ = None
+                        if isinstance(x_, ast.Call) and A.call_attr(x_) == "group" and len(x_.args) == 1:
+                            g_ = x_.args[0]
+                        elif isinstance(x_, ast.Subscript):
+                            g_ = x_.slice
+                        if isinstance(g_, ast.Constant) and isinstance(g_.value, int) and not isinstance(g_.value, bool):
+                            out_.append(g_.value)
+                        elif g_ is not None and A.const_str(g_) in names:
+                            out_.append(names[A.const_str(g_)])
+                        else:
+                            return None
+                    return out_
+                if isinstance(v, ast.IfExp):
+                    alts = [group_list(v.body, at_, depth + 1), group_list(v.orelse, at_, depth + 1)]
+                    alts = [a_ for a_ in alts if a_ != []]
+                    return alts[0] if alts and all(a_ is not None and a_ == alts[0] for a_ in alts) else None
                 if isinstance(v, ast.Name) and depth < 4 and at_ is not None and at_ >= 0:
-                    vals = [d.value for d in tx.df.reaching(at_, v.id)]
-                    nodes_ = [d.node for d in tx.df.reaching(at_, v.id)]
-                    hits = [all_groups(v2, n2, depth + 1) for (v2, n2) in zip(vals, nodes_) if not (v2 is None or A.is_none(v2))]
-                    return bool(hits) and all(hits)
-                return False
+                    alts = [group_list(d.value, d.node, depth + 1) for d in tx.df.reaching(at_, v.id) if not (d.value is None or A.is_none(d.value))]
+                    alts = [a_ for a_ in alts if a_ != []]
+                    return alts[0] if alts and all(a_ is not None and a_ == alts[0] for a_ in alts) else None
+                return None
 
             def unpacked(x, at_, depth=0):
-                """`language, module, name = m.groups()`: the i-th name stands for group i+1"""
+                """`language, module, name = m.groups()`: the i-th name stands for the i-th group of the sequence"""
                 if depth > 6:
                     return
+                for y in ast.walk(x):     # a single group named on the spot: m.group(2), m["module"]
+                    g_ = None
+                    if isinstance(y, ast.Call) and A.call_attr(y) == "group" and len(y.args) == 1:
+                        g_ = y.args[0]
+                    elif isinstance(y, ast.Subscript) and isinstance(y.ctx, ast.Load) and isinstance(y.value, ast.Name) and y.value.id in mvars:
+                        g_ = y.slice
+                    if isinstance(g_, ast.Constant) and isinstance(g_.value, int) and not isinstance(g_.value, bool) and g_.value in read:
+                        out.add(g_.value)
+                    elif g_ is not None and names.get(A.const_str(g_)) in read:
+                        out.add(names[A.const_str(g_)])
                 for nm_ in [y for y in ast.walk(x) if isinstance(y, ast.Name) and isinstance(y.ctx, ast.Load) and tx.df.is_local(y.id)]:
                     for d in tx.df.reaching(at_, nm_.id):
                         st_ = getattr(d, "stmt", None)
-                        if d.kind == "unpack" and isinstance(st_, ast.Assign) and all_groups(st_.value, d.node):
+                        gl = group_list(st_.value, d.node) if (d.kind == "unpack" and isinstance(st_, ast.Assign)) else None
+                        if gl:
                             for t in st_.targets:
                                 if isinstance(t, (ast.Tuple, ast.List)):
                                     for i_, el in enumerate(t.elts):
-                                        if isinstance(el, ast.Name) and el.id == nm_.id and (i_ + 1) in read:
-                                            out.add(i_ + 1)
+                                        if isinstance(el, ast.Name) and el.id == nm_.id and i_ < len(gl) and gl[i_] in read:
+                                            out.add(gl[i_])
                         elif d.value is not None and d.node is not None and d.node >= 0 and d.kind in ("assign", "for", "aug"):
                             unpacked(d.value, d.node, depth + 1)
 
             for (x, at_) in exprs:
+                before = len(out)
                 unpacked(x, at_)
+                if len(out) > before:
+                    continue     # followed precisely; the coarse dependency atoms below are the fallback
                 try:
                     ds = tx.deps(x, at_)
                 except AnalysisError:
